@@ -210,6 +210,38 @@ func c18Run(c core.Case, env *core.Env) core.Result {
 			}
 			r.Count("derivations_compared", 1)
 			r.AddSet("path_lengths", fmt.Sprint(plen))
+			// an application parses its account xpub once and keeps deriving from that object, serialising children as
+			// it goes: the parent must stay what it was and the next child must be right too
+			if k%3 == 0 && plen >= 1 {
+				parsed, err := ckd.NewExtendedKeyFromString(refXKey(par).String(), tss.S256())
+				if err != nil {
+					r.Fail("ckd:parse-reference-string", "library cannot parse the reference serialisation of the parent: %v", err)
+					continue
+				}
+				before := parsed.String()
+				chain0 := append([]byte{}, parsed.ChainCode...)
+				for rep := 0; rep < 2; rep++ {
+					ix := path[0] ^ uint32(rep)
+					_, ch, err := ckd.DeriveChildKey(ix, parsed, tss.S256())
+					want, _, rerr := ref.CKDPub(refXKey(par), ix)
+					if rerr != nil {
+						break
+					}
+					if err != nil {
+						r.Fail("ckd:refused", "derivation %d from a parsed parent refused: %v", rep+1, err)
+						break
+					}
+					if ch.String() != want.String() { // serialising the child is part of the sequence
+						r.Fail("ckd:parsed-parent-reuse", "child %d derived from the same parsed parent object differs from BIP32 (the first one was right: %v)", rep+1, rep == 1)
+						break
+					}
+					if parsed.String() != before || !bytes.Equal(parsed.ChainCode, chain0) {
+						r.Fail("ckd:parent-modified", "deriving and serialising a child changed the parent key object")
+						break
+					}
+					r.Count("parsed_parent_derivations", 1)
+				}
+			}
 		}
 		r.NonTrivial = r.Obs["derivations_compared"] > 0
 		r.Sample = map[string]any{"case": c.ID, "derivations": r.Obs["derivations_compared"]}
